@@ -308,32 +308,42 @@ def onBestChain (U : Nat → Blk) (m : Mgr) (i : Option Nat) : Bool :=
   | none => true
   | some i => m.bestAt (U i).height = some i
 
+/-- one iteration of the loop body: the next update and the index the subscriber is at after it.
+Reverting needs the block's body, supplement and parent state (`blockAndParent`, `bs == nil` is
+"missing supplement"); so does applying.  The state "before genesis" (`n.GenesisState()`, stored
+under the zero id by `NewDBStore`, `db.go:1016`) always exists, hence no parent check for id 0. -/
+def nextUpd (U : Nat → Blk) (m : Mgr) (idx : Option Nat) : Except RErr (Upd × Nat) :=
+  if !onBestChain U m idx then
+    match idx with
+    | none => .error .panic          -- unreachable: `onBestChain none = true`
+    | some i =>
+      match m.block i with
+      | none => .error .missingBlock
+      | some supp =>
+        if i ≠ 0 ∧ !m.states (U i).parent then .error .missingBlock
+        else if !supp then .error .missingBlock
+        else .ok (.revert i, (U i).parent)
+  else
+    let next? := match idx with
+      | none => m.bestAt 0
+      | some i => m.bestAt ((U i).height + 1)
+    match next? with
+    | none => .error .missingBlock
+    | some n =>
+      match m.block n with
+      | none => .error .missingBlock
+      | some supp =>
+        if n ≠ 0 ∧ !m.states (U n).parent then .error .missingBlock
+        else if !supp then .error .missingBlock
+        else .ok (.apply n, n)
+
 def updatesSince (U : Nat → Blk) (m : Mgr) : Nat → Option Nat → Nat → List Upd → Except RErr (List Upd)
   | 0, _, _, acc => .ok acc
   | fuel + 1, idx, max, acc =>
     if idx = some m.tip ∨ acc.length ≥ max then .ok acc
-    else if !onBestChain U m idx then
-      match idx with
-      | none => .ok acc
-      | some i =>
-        match m.block i with
-        | none => .error .missingBlock
-        | some supp =>
-          if !m.states (U i).parent then .error .missingBlock
-          else if !supp then .error .missingBlock
-          else updatesSince U m fuel (some (U i).parent) max (acc ++ [.revert i])
     else
-      let next? := match idx with
-        | none => m.bestAt 0
-        | some i => m.bestAt ((U i).height + 1)
-      match next? with
-      | none => .error .missingBlock
-      | some n =>
-        match m.block n with
-        | none => .error .missingBlock
-        | some supp =>
-          if !m.states (U n).parent then .error .missingBlock
-          else if !supp then .error .missingBlock
-          else updatesSince U m fuel (some n) max (acc ++ [.apply n])
+      match nextUpd U m idx with
+      | .error e => .error e
+      | .ok (u, i') => updatesSince U m fuel (some i') max (acc ++ [u])
 
 end Verif.Chain
